@@ -88,12 +88,28 @@ def w_generate(case):
                 os.makedirs(os.path.dirname(p), exist_ok=True)
                 with open(p, "w") as f:
                     f.write(c)
+        schema_path = os.path.join(root, "schema.fcp")
+        if case.get("via_cli"):
+            with open(schema_path, "w") as f:
+                f.write(case["text"])
         before = _snapshot(root)
         buf = io.StringIO()
         try:
-            with contextlib.redirect_stdout(buf):
-                r = GeneratorManager(make_general_verifier()).generate(name, None, None, _parse(case["text"]), odir)
-            out["result"] = {"ok": True} if r.is_ok() else {"ok": False, "msgs": [m for m, _, _ in r.err().msg]}
+            if case.get("via_cli"):
+                # the `fcp generate <generator> <schema> <output>` command itself (src/fcp/__main__.py)
+                from click.testing import CliRunner
+                from fcp.__main__ import generate_cmd
+                res = CliRunner().invoke(generate_cmd, [name, schema_path, odir])
+                buf.write(res.output or "")
+                if res.exception is not None and not isinstance(res.exception, SystemExit):
+                    out["result"] = {"exc": type(res.exception).__name__, "msg": str(res.exception)[:100]}
+                else:
+                    failed = "Failed to generate fcp" in (res.output or "") or (res.exit_code or 0) != 0
+                    out["result"] = {"ok": not failed, "msgs": [(res.output or "")[-300:]] if failed else []}
+            else:
+                with contextlib.redirect_stdout(buf):
+                    r = GeneratorManager(make_general_verifier()).generate(name, None, None, _parse(case["text"]), odir)
+                out["result"] = {"ok": True} if r.is_ok() else {"ok": False, "msgs": [m for m, _, _ in r.err().msg]}
         except BaseException as e:
             if isinstance(e, KeyboardInterrupt):
                 raise
@@ -192,7 +208,7 @@ def run_c10(prop, tier):
                 poison = decls_poison
         else:
             g = rng.choice(["dbc", "can_c", "cpp", "nop", "dbc", "can_c"])
-        cases.append({"text": text, "generator": g, "pre": rng.choice(PRE), "poison": poison})
+        cases.append({"text": text, "generator": g, "pre": rng.choice(PRE), "poison": poison, "via_cli": rng.random() < 0.5})
     ires = run_cases("harness.genmgr", "w_generate", cases, timeout_s=120)
     lcases = []
     idx = []
@@ -206,6 +222,7 @@ def run_c10(prop, tier):
                 "verdict": o["verdict"], "result": o["result"]}
         rep.sample(dict(base, written=sorted(set(o["after"]) - set(o["before"]))), limit=4)
         rep.hist("generator", c["generator"])
+        rep.hist("entry", "cli generate command" if c.get("via_cli") else "GeneratorManager.generate")
         rep.hist("verdict", "ok" if o["verdict"].get("ok") else (c["poison"] or "rejected"))
         if "exc" in o["verdict"]:
             rep.violation(dict(base, kind="verify-raised", what="verifier raised"), no_input=True)
